@@ -28,6 +28,16 @@ def _export_chunk(args):
     for it in items:
         cid = it['cid']
         try:
+            if it['kind'] == 'pair':
+                _, fa, fb = F.api_pairs()[it['pair']]
+                c = vf_export.make_pair_case(cid, fa, fb, rng, nenv=nenv)
+                if c is None:
+                    rejected.append((cid, 'constant-too-large'))
+                    continue
+                c['abs'] = []
+                c['vname'] = 'v'
+                cases.append(c)
+                continue
             if it['kind'] == 'gen':
                 b = (lambda it=it: vf_gen.build(it['tokens'], it['dim']))
             else:
@@ -138,12 +148,16 @@ def run(ctx):
         items = short + longer[:max(0, cap - len(short))]
     for d in forms.universe() + extra_forms():
         items.append({'kind': 'desc', 'desc': d})
+    for n, (pname, _, _) in enumerate(forms.api_pairs()):
+        items.append({'kind': 'pair', 'pair': n, 'name': pname})
     for i, it in enumerate(items):
         it['cid'] = i
 
     from .. import vf_gen
 
     def label(it):
+        if it['kind'] == 'pair':
+            return 'api-pair:%s (let variable vs. inlined expression)' % it['name']
         return vf_gen.render(it['tokens']) + ' [dim %d]' % it['dim'] if it['kind'] == 'gen' else \
             '%s: %s [dim %d]' % (it['desc']['name'], it['desc']['expr'], it['desc']['dim'])
 
